@@ -469,6 +469,89 @@ Fixpoint vhash (v : value) : list Z :=
 Definition hash_eq (a b : value) : bool := zlist_eqb (vhash a) (vhash b).
 
 (* ------------------------------------------------------------------------------------ *)
+(* feature `preserve_order`: ValueMap = IndexMap<Value, Value>                          *)
+(* ------------------------------------------------------------------------------------ *)
+(* Which map implementation backs ValueMap.  Ord::cmp and Hash::hash walk the pairs in
+   iteration order in both cases (no parameter needed: a [VMap] lists its pairs in iteration
+   order); what changes is how a map is built and how a key is looked up, and with it the
+   Map arm of PartialEq. *)
+Inductive map_order := Sorted | Insertion.
+
+(* IndexMap::get: the first entry whose hash equals the probe's and whose key is == to it
+   (`probe.equivalent(stored)`); a map with a single entry is compared with == alone.
+   Modelled with full hashes: hashbrown really compares 7 hash
+   bits before calling ==, so for two keys that are == but hash differently (the bool /
+   number known finding) the real answer depends on the map's random hasher state; the
+   correspondence run leaves such lookups out. *)
+Fixpoint veq_i (a b : value) {struct a} : bool :=
+  let elems := fix elems (xs ys : list value) {struct xs} : bool :=
+    match xs, ys with
+    | [], [] => true
+    | x :: xs', y :: ys' => veq_i x y && elems xs' ys'
+    | _, _ => false
+    end in
+  let seq xs :=
+    match b with
+    | VSeq ys | VTuple ys | VIter _ ys => Bool.eqb (is_tuple a) (is_tuple b) && elems xs ys
+    | _ => false
+    end in
+  match a with
+  | VSeq xs => seq xs
+  | VTuple xs => seq xs
+  | VIter _ xs => seq xs
+  | VMap kvs =>
+      match b with
+      | VMap kvs2 =>
+          (length kvs =? length kvs2)%nat &&
+          (fix all (xs : list (value * value)) : bool :=
+             match xs with
+             | [] => true
+             | (k, v1) :: r =>
+                 match kvs2 with
+                 | [(k2, v2)] => veq_i k k2 && veq_i v1 v2     (* get_index_of: a single entry is compared with == only *)
+                 | _ =>
+                     (fix find (l : list (value * value)) : bool :=
+                        match l with
+                        | [] => false
+                        | (k2, v2) :: l' => if hash_eq k k2 && veq_i k k2 then veq_i v1 v2 else find l'
+                        end) kvs2
+                 end && all r
+             end) kvs
+      | _ => false
+      end
+  | VPlain s => match b with VPlain t => zlist_eqb s t | _ => false end
+  | _ => scalar_eq a b
+  end.
+
+Fixpoint imap_find (k : value) (kvs : list (value * value)) : option value :=
+  match kvs with
+  | [] => None
+  | (k2, v2) :: r => if hash_eq k k2 && veq_i k k2 then Some v2 else imap_find k r
+  end.
+(* IndexMap::get_index_of: `[x] => key.equivalent(&x.key)` -- no hashing for a single entry *)
+Definition imap_get (k : value) (kvs : list (value * value)) : option value :=
+  match kvs with
+  | [(k2, v2)] => if veq_i k k2 then Some v2 else None
+  | _ => imap_find k kvs
+  end.
+
+(* IndexMap::insert: an existing equal key keeps its key and position and takes the new
+   value; a new key goes to the end *)
+Fixpoint imap_insert (k v : value) (kvs : list (value * value)) : list (value * value) :=
+  match kvs with
+  | [] => [(k, v)]
+  | (k2, v2) :: r => if hash_eq k k2 && veq_i k k2 then (k2, v) :: r else (k2, v2) :: imap_insert k v r
+  end.
+
+Definition map_build_o (o : map_order) (pairs : list (value * value)) : list (value * value) :=
+  match o with
+  | Sorted => map_build pairs
+  | Insertion => fold_left (fun m kv => imap_insert (fst kv) (snd kv) m) pairs []
+  end.
+Definition map_get_o (o : map_order) := match o with Sorted => map_get | Insertion => imap_get end.
+Definition veq_o (o : map_order) := match o with Sorted => veq | Insertion => veq_i end.
+
+(* ------------------------------------------------------------------------------------ *)
 (* the collection filters, over any element type                                        *)
 (* ------------------------------------------------------------------------------------ *)
 Section Filters.
@@ -703,3 +786,109 @@ Definition f_last (v : value) : outcome value :=
         Ok (match items with x :: _ => x | [] => VUndef end)))
   | _ => Err E_InvalidOperation
   end.
+
+(* ------------------------------------------------------------------------------------ *)
+(* dictsort, items, map(attribute=..), select / reject, sum, join                       *)
+(* ------------------------------------------------------------------------------------ *)
+(* Value::from((k, v)): a two-element Tuple *)
+Definition pair_value (kv : value * value) : value := VTuple [fst kv; snd kv].
+
+(* filters.rs::dictsort -- the pairs in iteration order, stably sorted by key or by value *)
+Definition dictsort_cmp (by_value cs rev : bool) (p q : value * value) : comparison :=
+  if by_value then cmp_helper cs rev (snd p) (snd q) else cmp_helper cs rev (fst p) (fst q).
+Definition f_dictsort (by_value cs rev : bool) (v : value) : outcome value :=
+  match v with
+  | VMap kvs => Ok (VSeq (map pair_value (stable_sort (dictsort_cmp by_value cs rev) kvs)))
+  | _ => Err E_InvalidOperation
+  end.
+
+(* filters.rs::items *)
+Definition f_items (v : value) : outcome value :=
+  match v with
+  | VMap kvs => Ok (VIter LzUnsized (map pair_value kvs))
+  | _ => Err E_InvalidOperation
+  end.
+
+(* filters.rs::map with attribute= (a name that is not a number) and an optional default=.
+   A failing lookup (an undefined item) is an error unless a default is given. *)
+Fixpoint map_attr_go (key : list Z) (dflt : value) (items : list value) : outcome (list value) :=
+  match items with
+  | [] => Ok []
+  | x :: r =>
+      match get_attr key x with
+      | Some a => bind (map_attr_go key dflt r) (fun rest => Ok ((match a with VUndef => dflt | _ => a end) :: rest))
+      | None => match dflt with
+                | VUndef => Err E_UndefinedError
+                | _ => bind (map_attr_go key dflt r) (fun rest => Ok (dflt :: rest))
+                end
+      end
+  end.
+Definition f_map_attr (key : list Z) (dflt : value) (v : value) : outcome value :=
+  bind (iter_items v) (fun items => bind (map_attr_go key dflt items) (fun out => Ok (VSeq out))).
+
+(* Value::is_true.  Objects: enumerator_len() != Some(0); every seq-like value of this
+   universe knows when it is empty (an unsized lazy iterable over nothing reports the exact
+   size hint (0, Some(0))), a plain object has no length. *)
+Definition is_true (v : value) : bool :=
+  match v with
+  | VBool b => b
+  | VInt _ z => negb (z =? 0)
+  | VFloat b => negb (f_eq b 0)
+  | VStr _ s => match s with [] => false | _ => true end
+  | VBytes s => match s with [] => false | _ => true end
+  | VNone | VUndef => false
+  | VSeq xs | VTuple xs | VIter _ xs => match xs with [] => false | _ => true end
+  | VMap kvs => match kvs with [] => false | _ => true end
+  | VPlain _ => true
+  end.
+
+(* filters.rs::select / reject without a test: `passed != invert` *)
+Definition f_select (invert : bool) (v : value) : outcome value :=
+  bind (iter_items v) (fun items => Ok (VSeq (filter (fun x => negb (Bool.eqb (is_true x) invert)) items))).
+
+(* filters.rs::sum over integers that fit i128 (ops::add: checked i128 addition, the result
+   is stored in the narrowest representation); undefined items are skipped, other kinds are
+   an error.  Floats and u128 values beyond i128 are outside this model: OutOfGas. *)
+Fixpoint sum_go (acc : Z) (items : list value) : outcome Z :=
+  match items with
+  | [] => Ok acc
+  | VUndef :: r => sum_go acc r
+  | VInt _ z :: r =>
+      if negb (in_i128 z) then OutOfGas
+      else if in_i128 (acc + z) then sum_go (acc + z) r else Err E_InvalidOperation
+  | VFloat _ :: _ => OutOfGas
+  | _ :: _ => Err E_InvalidOperation
+  end.
+Definition f_sum (v : value) : outcome value :=
+  bind (iter_items v) (fun items => bind (sum_go 0 items) (fun z => Ok (VInt W_I128 z))).
+
+(* filters.rs::join without auto-escaping, for items that are strings or integers (other
+   kinds need the Display impl, outside this model: OutOfGas) *)
+Fixpoint dec_digits (fuel : nat) (n : Z) (acc : list Z) : list Z :=
+  match fuel with
+  | O => acc
+  | S f => if n <? 10 then (48 + n) :: acc else dec_digits f (n / 10) ((48 + n mod 10) :: acc)
+  end.
+Definition decimal (z : Z) : list Z :=
+  if z <? 0 then 45 :: dec_digits 50 (- z) [] else dec_digits 50 z [].
+Definition render (v : value) : option (list Z) :=
+  match v with
+  | VStr _ s => Some s
+  | VInt _ z => Some (decimal z)
+  | _ => None
+  end.
+Fixpoint join_go (joiner : list Z) (first : bool) (items : list value) : option (list Z) :=
+  match items with
+  | [] => Some []
+  | x :: r =>
+      match render x, join_go joiner false r with
+      | Some s, Some rest => Some ((if first then [] else joiner) ++ s ++ rest)
+      | _, _ => None
+      end
+  end.
+Definition f_join (joiner : list Z) (v : value) : outcome value :=
+  bind (iter_items v) (fun items =>
+    match join_go joiner true items with
+    | Some s => Ok (VStr false s)
+    | None => OutOfGas
+    end).
